@@ -1473,7 +1473,7 @@ fn register_pls(r: &mut Registry) {
         f
     });
     macro_rules! model {
-        ($name:literal, $ty:ident, $F:ty, $fp:ident, $tyname:literal, $c20:expr) => {
+        ($name:literal, $ty:ident, $F:ty, $fp:ident, $tyname:literal, $algo:expr, $c20:expr) => {
             r.model::<$ty<$F>>(
                 $name,
                 K,
@@ -1481,19 +1481,21 @@ fn register_pls(r: &mut Registry) {
                 $c20,
                 |p| {
                     let (x, y, _, _) = pls_data::<$F>(p, false);
-                    $ty::<$F>::params(pls_ncomp(p)).fit(&Dataset::new(x, y)).expect("pls fit")
+                    $ty::<$F>::params(pls_ncomp(p)).algorithm($algo).fit(&Dataset::new(x, y)).expect("pls fit")
                 },
                 |m, p, f| $fp(m, p, false, f),
                 Some(|a, b| a == b),
             );
         };
     }
-    model!("pls_reg_model", PlsRegression, f64, fp_pls_reg, "PlsRegression", Some((Kind::Claim, false)));
-    model!("pls_can_model", PlsCanonical, f64, fp_pls_can, "PlsCanonical", Some((Kind::Claim, false)));
-    model!("pls_cca_model", PlsCca, f64, fp_pls_cca, "PlsCca", Some((Kind::Claim, false)));
-    model!("pls_reg_model_f32", PlsRegression, f32, fp_pls_reg, "PlsRegression", None);
-    model!("pls_can_model_f32", PlsCanonical, f32, fp_pls_can, "PlsCanonical", None);
-    model!("pls_cca_model_f32", PlsCca, f32, fp_pls_cca, "PlsCca", None);
+    // CCA models use the SVD variant: its power method reports `PowerMethodNotConvergedError` on some
+    // small data sets (covered as an outcome by the `pls_cca_*` scenarios), and `build` must not fail
+    model!("pls_reg_model", PlsRegression, f64, fp_pls_reg, "PlsRegression", Algorithm::Nipals, Some((Kind::Claim, false)));
+    model!("pls_can_model", PlsCanonical, f64, fp_pls_can, "PlsCanonical", Algorithm::Nipals, Some((Kind::Claim, false)));
+    model!("pls_cca_model", PlsCca, f64, fp_pls_cca, "PlsCca", Algorithm::Svd, Some((Kind::Claim, false)));
+    model!("pls_reg_model_f32", PlsRegression, f32, fp_pls_reg, "PlsRegression", Algorithm::Svd, None);
+    model!("pls_can_model_f32", PlsCanonical, f32, fp_pls_can, "PlsCanonical", Algorithm::Nipals, None);
+    model!("pls_cca_model_f32", PlsCca, f32, fp_pls_cca, "PlsCca", Algorithm::Svd, None);
     r.model::<PlsSvdParams>("pls_svd_params", K, &["PlsSvdParams"], Some((Kind::Claim, false)), |p| PlsSvdParams::new(1 + (p.seed % 2) as usize).scale(p.seed % 3 != 0), fp_pls_svd_params, Some(|a, b| a == b));
     // validated only at fit time: zero components is reported by `fit`
     r.model::<PlsSvdParams>("pls_svd_params_invalid", K, &["PlsSvdParams"], None, |_| PlsSvdParams::new(0), fp_pls_svd_params, Some(|a, b| a == b));
